@@ -50,6 +50,9 @@ def call_by_contract(it, f, thm, args, kwargs, node):
     for k, src in thm.lets.items():
         fr.locals[k] = verify.value_of(it, src, fr)
     ctx.notes["assumed_contracts"].add(thm.name)
+    for p_ in thm.params:
+        ctx.ghost[f"ghost_call_{f.__name__}_{p_}"] = fr.locals[p_]      # arguments of the latest call, for data-flow clauses
+    ctx.ghost[f"ghost_calls_{f.__name__}"] = ctx.ghost.get(f"ghost_calls_{f.__name__}", 0) + 1
     # deterministic (pure) callee: the same arguments give the same outcome on this path
     try:
         key = (qn,) + tuple(_argkey(fr.locals[p]) for p in thm.params)
@@ -65,7 +68,10 @@ def call_by_contract(it, f, thm, args, kwargs, node):
     cases = thm.cases
     k = ctx.fork(len(cases)) if len(cases) > 1 else 0
     case = cases[k]
-    ctx.assume(verify.formula(it, case.when, fr))
+    if case.when.strip() == "otherwise":
+        ctx.assume(z3.Not(z3.Or(*[verify.formula(it, c.when, fr) for c in cases[:k]])) if k else z3.BoolVal(True))
+    else:
+        ctx.assume(verify.formula(it, case.when, fr))
     if case.raises is not None:
         if key is not None:
             memo.append((key, [fr.locals[p] for p in thm.params], ("raise", case.raises[0])))
@@ -79,6 +85,7 @@ def call_by_contract(it, f, thm, args, kwargs, node):
         ctx.assume(verify.formula(it, clause, fr))
     if key is not None:
         memo.append((key, [fr.locals[p] for p in thm.params], ("return", result)))
+    ctx.ghost[f"ghost_ret_{f.__name__}"] = result
     return result
 
 
